@@ -364,6 +364,11 @@ def gen_views(tier, rng):
     out = []
     for _ in range(nfiles):
         d = make_doc(rng, tier)
+        if len(d.records) >= 2 and rng.random() < 0.04:
+            # decades between two records: --fill has to produce thousands of periods
+            r = rng.choice(d.records)
+            y, m_, dd_ = r.ymd
+            r.ymd = (min(9999, y + rng.randint(28, 120)), m_, min(dd_, 28))
         now = pick_now(rng, d)
         text = d.render().hex() or "-"
         span = span_days(d)
@@ -372,7 +377,7 @@ def gen_views(tier, rng):
             agg = rng.choice("dwmqy")
             fill = rng.random() < 0.5
             if fill:
-                limit = {"d": 500, "w": 3000, "m": 8000, "q": 8000, "y": 8000}[agg]
+                limit = {"d": 500, "w": 16000, "m": 50000, "q": 50000, "y": 50000}[agg]
                 if tier != "quick" and rng.random() < 0.02:
                     limit *= 12
                 if span > limit:
